@@ -41,6 +41,7 @@ func TraverseSlots(p *load.Program, tb *kinds.Table) *report.RuleResult {
 	}
 	// helper Traverse(n Vertex): accept iff non-nil
 	helperOK := map[string]bool{}
+	im.UseNorm(func(*types.Func) bool { return false }, norm.Options{}) // helper bodies in canonical shape (isAbsent(n) → n == nil, early returns)
 	for name, fd := range im.Methods {
 		if tb.ByMethod[name] != nil {
 			continue
@@ -75,7 +76,7 @@ func (im *Impl) isNilGuardedAccept(fd *ast.FuncDecl) (bool, string) {
 	if kinds.Classify(par.Type(), im.Kinds) != kinds.Node {
 		return false, ""
 	}
-	ps, err := paths.Enumerate(fd.Body)
+	ps, err := paths.Enumerate(im.Body(fd))
 	if err != nil {
 		return false, ""
 	}
